@@ -40,6 +40,8 @@ impl HolePunch {
 
     #[cfg(target_os = "linux")]
     pub fn punch(file: &File, start: usize, length: usize) -> Result<()> {
+        #[cfg(feature = "verif_hooks")]
+        crate::verif::io(|| crate::verif::IoEvent::Punch { offset: start, len: length });
         let result = unsafe {
             libc::fallocate(
                 file.as_raw_fd(),
